@@ -25,6 +25,7 @@ import (
 
 	"github.com/veesix-networks/osvbng/pkg/config"
 	"github.com/veesix-networks/osvbng/pkg/config/interfaces"
+	"github.com/veesix-networks/osvbng/pkg/config/ip"
 	"github.com/veesix-networks/osvbng/pkg/config/protocols"
 	"github.com/veesix-networks/osvbng/pkg/config/subscriber"
 	conf "github.com/veesix-networks/osvbng/pkg/handlers/conf"
@@ -86,6 +87,8 @@ func c13Val(v interface{}) string {
 			return "p"
 		}
 		return "p?"
+	case *interfaces.InterfaceConfig, *ip.VRFSConfig:
+		return c13ObjToken(reflect.ValueOf(v))
 	case []string:
 		if len(x) == 0 {
 			return "l-"
@@ -97,6 +100,84 @@ func c13Val(v interface{}) string {
 		return "l" + strings.Join(hs, ":")
 	}
 	return "?"
+}
+
+// a pointer to a struct as a value token: "o" + the non-zero scalar fields by json tag, sorted
+func c13ObjToken(v reflect.Value) string {
+	if v.Kind() != reflect.Ptr || v.IsNil() {
+		return "o?"
+	}
+	e := v.Elem()
+	var fs []string
+	for i := 0; i < e.NumField(); i++ {
+		tag := strings.Split(e.Type().Field(i).Tag.Get("json"), ",")[0]
+		f := e.Field(i)
+		switch f.Kind() {
+		case reflect.String:
+			if f.String() != "" {
+				fs = append(fs, tag+"=s"+hex.EncodeToString([]byte(f.String())))
+			}
+		case reflect.Bool:
+			if f.Bool() {
+				fs = append(fs, tag+"=b1")
+			}
+		case reflect.Int, reflect.Int64:
+			if f.Int() != 0 {
+				fs = append(fs, tag+"=i"+strconv.FormatInt(f.Int(), 10))
+			}
+		case reflect.Uint32:
+			if f.Uint() != 0 {
+				fs = append(fs, tag+"=i"+strconv.FormatUint(f.Uint(), 10))
+			}
+		default:
+			if !f.IsZero() {
+				fs = append(fs, tag+"=?") // a nested object: outside what the value token can say
+			}
+		}
+	}
+	sort.Strings(fs)
+	if len(fs) == 0 {
+		return "o-"
+	}
+	return "o" + strings.Join(fs, ";")
+}
+
+// build the struct a path pattern expects from an "o..." token
+func c13ObjValue(path string, tok string) (interface{}, bool) {
+	t, err := leafTypeOf(reflect.TypeOf(&config.Config{}), strings.Split(path, "."))
+	if err != nil || t == nil || t.Kind() != reflect.Ptr || t.Elem().Kind() != reflect.Struct {
+		// the path does not take a struct: hand over an interface config anyway (wrong type for the leaf)
+		t = reflect.TypeOf(&interfaces.InterfaceConfig{})
+	}
+	obj := reflect.New(t.Elem())
+	if tok != "o-" {
+		for _, kv := range strings.Split(tok[1:], ";") {
+			i := strings.Index(kv, "=")
+			if i < 0 {
+				return nil, false
+			}
+			val, ok := c13ParseVal(kv[i+1:])
+			if !ok {
+				return nil, false
+			}
+			found := false
+			for j := 0; j < t.Elem().NumField(); j++ {
+				if strings.Split(t.Elem().Field(j).Tag.Get("json"), ",")[0] == kv[:i] {
+					f := obj.Elem().Field(j)
+					rv := reflect.ValueOf(val)
+					if !rv.Type().ConvertibleTo(f.Type()) {
+						return nil, false
+					}
+					f.Set(rv.Convert(f.Type()))
+					found = true
+				}
+			}
+			if !found {
+				return nil, false
+			}
+		}
+	}
+	return obj.Interface(), true
 }
 
 func (h *c13Handler) Validate(ctx context.Context, hctx *conf.HandlerContext) error {
@@ -735,6 +816,9 @@ func c13RunCase(line string, root string, idx int, templates string) (res string
 			p += 2
 		case "s":
 			v, ok := c13ParseVal(f[p+3])
+			if strings.HasPrefix(f[p+3], "o") {
+				v, ok = c13ObjValue(f[p+2], f[p+3])
+			}
 			if !ok {
 				return "badline"
 			}
